@@ -23,7 +23,7 @@ EXTENDS Rules, Json, IOUtils, TLCExt
 
 T == ndJsonDeserialize(IOEnv.TRACE)
 
-VARIABLES l, obs, ent
+VARIABLES l, obs, ent, aux       \* aux[slot] : round structure of that instance's last call (for the replay monitor)
 
 Slots == 0 .. 3
 
@@ -105,7 +105,7 @@ CheckEvents(n, ev, obsEv) ==
 
 ProcessingCall(a) == a[1] \in {"update", "react", "imm"}
 
-Monitors(n, pre, m, rec, entered) ==
+Monitors(n, pre, m, rec, entered, src) ==
     LET post == rec.post  ev == rec.ev  run == BalancedRun(entered, ev) IN
     \* C01 : well-formed configuration after the call and inside every callback that can observe it
     /\ IF rec.a[1] = "del" THEN TRUE
@@ -137,11 +137,29 @@ Monitors(n, pre, m, rec, entered) ==
             /\ IF post.px = 0 THEN TRUE ELSE Fail(n, "mon.idle.px", post.px)
             /\ IF post.pc = 0 THEN TRUE ELSE Fail(n, "mon.idle.pc", post.pc)
             /\ IF post.isS = post.isR THEN TRUE ELSE Fail(n, "mon.scheduled", <<post.isS, post.isR>>)
+    \* C08 : a load reproduces the saved configuration and delivers exit / enter to what stops / starts being active
+    /\ IF rec.a[1] = "load" /\ UnpackBytes(Tail(rec.a))[1] = 1
+       THEN LET saved == LoadRequested(Blank, 1, UnpackBytes(Tail(rec.a)), 2)[1]
+                before == IF pre[1] THEN {} ELSE SetOfMask(pre[2].isA)
+                after  == SetOfMask(post.isA)
+                Got(me) == { ev[i][1] : i \in { j \in 1 .. Len(ev) : ev[j][2] = me } }
+            IN /\ Diff(n, "mon.load.act", saved.req, post.act)
+               /\ Diff(n, "mon.load.res", saved.res, post.res)
+               /\ Diff(n, "mon.load.exit",  { s \in before \ after : HasUser(s) }, { s \in Got("exit")  : s \notin after })
+               /\ Diff(n, "mon.load.enter", { s \in after \ before : HasUser(s) }, { s \in Got("enter") : s \notin before })
+       ELSE TRUE
+    \* C09 : replaying the authority's previousTransitions() on the replica reproduces its configuration
+    /\ IF rec.a[1] = "replay" /\ ~src[1][1]
+       THEN /\ Diff(n, "mon.replay.act", src[1][2].act, post.act)
+            /\ IF /\ Len(SelectSeq(src[2], LAMBDA r : r[1] # "noop")) <= 1
+                  /\ \A i \in 1 .. Len(src[2]) : \A j \in 1 .. Len(src[2][i][2]) : src[2][i][2][j][3] # "schedule"
+               THEN Diff(n, "mon.replay.res", src[1][2].res, post.res) ELSE TRUE
+       ELSE TRUE
     \* C16 : the structure report mirrors isActive
     /\ IF rec.a[1] = "del" THEN TRUE
        ELSE IF post.strA = post.isA THEN TRUE ELSE Fail(n, "mon.report", <<post.strA, post.isA>>)
 
-CheckRecord(n, pre, m, rec, entered) ==
+CheckRecord(n, pre, m, rec, entered, src) ==
     /\ IF rec.a[1] = "del" THEN TRUE
        ELSE LET e == ToObs(m) IN
             /\ \A f \in Fields : Diff(n, f, e[f], rec.post[f])
@@ -149,10 +167,12 @@ CheckRecord(n, pre, m, rec, entered) ==
             /\ Diff(n, "prev.payload", Map(m.prev, Pay),   Map(rec.post.prev, Pay))
     /\ CheckEvents(n, m.ev, rec.ev)
     /\ Diff(n, "draws", m.draws, rec.draws)
+    /\ IF rec.a[1] = "save" THEN Diff(n, "buf", Encode(m), rec.buf) ELSE TRUE
+    /\ IF rec.a[1] \in {"replay", "replayenter"} THEN Diff(n, "ret", IF m.ok THEN 1 ELSE 0, rec.ret) ELSE TRUE
     /\ Diff(n, "badThis", <<>>, rec.badThis)
     /\ Diff(n, "badOrigin", <<>>, rec.badOrigin)
     /\ Diff(n, "asserts", <<>>, rec.asserts)
-    /\ Monitors(n, pre, m, rec, entered)
+    /\ Monitors(n, pre, m, rec, entered, src)
     \* bookkeeping for the orchestration (not a judgement): was a round vetoed in this step?
     /\ IF \E i \in 1 .. Len(m.rounds) : m.rounds[i][1] = "vetoed" THEN PrintT(<<"NOTE", n, "vetoed">>) ELSE TRUE
 
@@ -164,24 +184,26 @@ Agrees(m, rec) ==
 
 PostOf(rec) == IF rec.a[1] = "del" THEN BlankObs ELSE <<FALSE, rec.post>>
 
-TraceInit == l = 1 /\ obs = [i \in Slots |-> BlankObs] /\ ent = [i \in Slots |-> {}]
+TraceInit == l = 1 /\ obs = [i \in Slots |-> BlankObs] /\ ent = [i \in Slots |-> {}] /\ aux = [i \in Slots |-> <<>>]
 
 TraceNext ==
     /\ l <= Len(T)
     /\ LET rec == T[l]
-           pre == obs[rec.i]
+           pre == IF rec.a[1] = "copy" THEN obs[rec.a[2]] ELSE obs[rec.i]
            m   == Step(FromObs(pre), rec.a, rec.sc)
            \* where an open finding's deviation switch mattered, the intended behaviour is acceptable too
            mI  == Step([FromObs(pre) EXCEPT !.dev = {}], rec.a, rec.sc)
-           e0  == IF rec.a[1] = "new" THEN {} ELSE ent[rec.i]
-       IN /\ IF m.notes = {} THEN CheckRecord(l, pre, m, rec, e0)
-             ELSE IF Agrees(m, rec) THEN CheckRecord(l, pre, m, rec, e0) /\ PrintT(<<"NOTE", l, m.notes>>)
-             ELSE CheckRecord(l, pre, mI, rec, e0)
+           e0  == IF rec.a[1] = "new" THEN {} ELSE IF rec.a[1] = "copy" THEN ent[rec.a[2]] ELSE ent[rec.i]
+           src == IF rec.a[1] = "replay" THEN <<obs[rec.a[2]], aux[rec.a[2]]>> ELSE <<BlankObs, <<>>>>
+       IN /\ IF m.notes = {} THEN CheckRecord(l, pre, m, rec, e0, src)
+             ELSE IF Agrees(m, rec) THEN CheckRecord(l, pre, m, rec, e0, src) /\ PrintT(<<"NOTE", l, m.notes>>)
+             ELSE CheckRecord(l, pre, mI, rec, e0, src)
+          /\ aux' = [aux EXCEPT ![rec.i] = m.rounds]
           /\ obs' = [obs EXCEPT ![rec.i] = PostOf(rec)]
           /\ ent' = [ent EXCEPT ![rec.i] = BalancedRun(e0, rec.ev).ent]
     /\ l' = l + 1
 
-TraceSpec == TraceInit /\ [][TraceNext]_<<l, obs, ent>>
+TraceSpec == TraceInit /\ [][TraceNext]_<<l, obs, ent, aux>>
 
 \* printed once the whole file has been walked
 Done == l > Len(T) => PrintT(<<"CHECKED", Len(T)>>)
